@@ -88,6 +88,27 @@ Renaming(d, bl, indiv) == LET r == BlanketOf(d, bl) IN
                           [k \in DOMAIN r \cup DOMAIN indiv |-> IF k \in DOMAIN indiv THEN indiv[k] ELSE r[k]]
 
 \* ------------------------------------------------------------------------------------------
+\* 2b. values that are mappings themselves: <<"m", f>> with f a function key -> value (a nested dict of ANY dict class:
+\*     dict, dictattr, Dict, OrderedDict, defaultdict, a user subclass - the law does not look at the realisation).
+\*     "Untouched values": every operator hands the values on as they are.  The one operator that looks inside a value
+\*     is + of Dict (and its subclasses), which is tree_update:
+\*       DictPlusIsTreeUpdate (named deviation from "d + o == {**d, **o}", which is what dictattr + o and every d | o do):
+\*       where BOTH sides hold a mapping under the same key, Dict + o holds their recursive merge (property C15)
+\* ------------------------------------------------------------------------------------------
+IsM(v) == v[1] = "m"
+RECURSIVE DeepV(_, _)
+DeepV(dv, ov) == IF IsM(dv) /\ IsM(ov)
+                 THEN <<"m", [k \in DOMAIN dv[2] \cup DOMAIN ov[2] |->
+                                IF k \notin DOMAIN ov[2] THEN dv[2][k]
+                                ELSE IF k \notin DOMAIN dv[2] THEN ov[2][k] ELSE DeepV(dv[2][k], ov[2][k])]>>
+                 ELSE ov
+TreePlus(cls) == cls \in {"Dict", "SubD"}
+PlusOn(cls, d, o) == IF ~TreePlus(cls) THEN Plus(d, o)
+                     ELSE [k \in KeySet(d) \cup KeySet(o) |->
+                             IF k \notin KeySet(o) THEN At(d, k)
+                             ELSE IF k \notin KeySet(d) THEN At(o, k) ELSE DeepV(At(d, k), At(o, k))]
+
+\* ------------------------------------------------------------------------------------------
 \* 3. Dict.__call__: evaluation of definitions in dependency order
 \*    par  : derived key -> sequence of the names of its NAMED parameters, as declared
 \*    kin  : derived key -> sequence of the kinds of those parameters:
@@ -180,4 +201,65 @@ Layered(rem, m, par, dep) ==
 DepAll(par)           == [k \in DOMAIN par |-> ParSet(par, k)]
 DepRequired(par, kin) == [k \in DOMAIN par |-> {par[k][i] : i \in {j \in 1..Len(par[k]) : ~HasDefault(kin[k][j])}}]
 DepPositional(par, kin) == [k \in DOMAIN par |-> {par[k][i] : i \in {j \in 1..Len(par[k]) : ~KwOnly(kin[k][j])}}]
+\* ------------------------------------------------------------------------------------------
+\* 4. Sessions: histories of public calls and of the caller's own actions on the SAME objects.
+\*    Law ("a call has no memory and owns nothing of the caller"): the outcome of every call is the single-call
+\*    law applied to what the objects hold AT THAT MOMENT - whatever was called or edited before -, every object
+\*    of the caller (receiver and arguments) holds after the call what it held before it, and what the caller
+\*    later does to the result of a call does not reach any of the caller's other objects.
+\* ------------------------------------------------------------------------------------------
+UlistLaw(fn, u, x) == CASE fn \in {"add", "or"} -> Union(u, x)
+                        [] fn = "sub" -> Diff(u, x)
+                        [] fn = "and" -> Inter(u, x)
+
+\* in-place edits of a list object through the list API: u[i] = v, append, pop, pop + append, reverse, insert, del u[i], clear
+EditL(u, e) == CASE e[1] = "set"       -> [u EXCEPT ![e[2]] = e[3]]
+                 [] e[1] = "append"    -> Append(u, e[2])
+                 [] e[1] = "pop"       -> Front(u)
+                 [] e[1] = "popappend" -> Append(Front(u), e[2])
+                 [] e[1] = "reverse"   -> Reverse(u)
+                 [] e[1] = "insert"    -> InsertAt(u, e[2], e[3])
+                 [] e[1] = "del"       -> RemoveAt(u, e[2])
+                 [] OTHER              -> <<>>                          \* "clear"
+EditLOk(u, e) == CASE e[1] \in {"set", "del"}          -> e[2] \in 1..Len(u)
+                   [] e[1] = "insert"                  -> e[2] \in 1..(Len(u) + 1)
+                   [] e[1] \in {"pop", "popappend"}    -> u # <<>>
+                   [] e[1] \in {"append", "reverse", "clear"} -> TRUE
+                   [] OTHER -> FALSE
+\* 4a. ONE ulist object u.  A call is  <<"op", fn, x>>  u fn x  |  <<"rop", fn, w>>  ulist(w) fn u (u is the right operand, a
+\*     list)  |  <<"in", e>>  e in u.  The owner edits u in place between the calls (a ulist IS a list); the domain of the
+\*     property (OwnerKeepsUnique) are the edits after which u still has no duplicates.  The result of a call is a
+\*     sequence (for "in": the one-element sequence of the boolean)
+CallU(u, c) == CASE c[1] = "op"  -> UlistLaw(c[2], u, c[3])
+                 [] c[1] = "rop" -> UlistLaw(c[2], Dedup(c[3]), <<"list", u>>)
+                 [] OTHER        -> <<VBool(PyIn(c[2], u))>>
+OwnerKeepsUnique(u, e) == EditLOk(u, e) /\ IsUSeq(EditL(u, e))
+
+\* 4b. mapping sessions.  The caller's objects: two receivers d, e (classes cls.d, cls.e), a list of keys K, another mapping O
+\*     and a renaming M (old -> new, as a dict); st = [d, e, K, O, M], every mapping as its sequence of <<key, value>>.
+\*     A call is <<name, receiver>> (or <<"relabel", receiver, individual relabels>>) and takes K / O / M as they are
+SetKey(d, k, v) == IF k \in KeySet(d) THEN [i \in 1..Len(d) |-> IF d[i][1] = k THEN <<k, v>> ELSE d[i]] ELSE Append(d, <<k, v>>)
+DelKey(d, k)    == SelectSeq(d, LAMBDA p : p[1] # k)
+RenOf(st, r, c) == Renaming(st[r], <<"map", AsFun(st.M)>>, AsFun(c[3]))          \* the individual relabels c[3] as items old, new
+CallMOk(st, c)  == c[1] = "relabel" => ~Collides(st[c[2]], RenOf(st, c[2], c))
+CallM(st, cls, c) == LET r == st[c[2]] IN
+    CASE c[1] = "minus"    -> <<"map", AsFun(Minus(r, <<"list", st.K>>))>>             \* r - K
+      [] c[1] = "and"      -> <<"map", AsFun(And(r, <<"list", st.K>>))>>               \* r & K
+      [] c[1] = "select"   -> Select(r, st.K)                                          \* r[K]
+      [] c[1] = "multiget" -> MultiGet(r, st.K)                                        \* r[tuple(K)]
+      [] c[1] = "plus"     -> <<"map", PlusOn(cls[c[2]], r, st.O)>>                    \* r + O
+      [] c[1] = "or"       -> <<"map", Plus(r, st.O)>>                                 \* r | O
+      [] c[1] = "keys"     -> <<"list", Wrap(KeySeq(r))>>                              \* r.keys()
+      [] OTHER             -> <<"map", Relabel(r, RenOf(st, c[2], c))>>                \* r.relabel(M, **individual)
+\* the owner's edits: obj[k] = v / del obj[k] / obj.clear() for obj one of d, e, O, M; K.append(k), K.pop()
+EditM(st, e) == CASE e[1] = "set"     -> [st EXCEPT ![e[2]] = SetKey(@, e[3], e[4])]
+                  [] e[1] = "del"     -> [st EXCEPT ![e[2]] = DelKey(@, e[3])]
+                  [] e[1] = "clear"   -> [st EXCEPT ![e[2]] = <<>>]
+                  [] e[1] = "appendK" -> [st EXCEPT !.K = Append(@, e[2])]
+                  [] OTHER            -> [st EXCEPT !.K = Front(@)]                       \* "popK"
+EditMOk(st, e) == CASE e[1] \in {"set", "clear"} -> e[2] \in {"d", "e", "O", "M"}
+                    [] e[1] = "del"     -> e[2] \in {"d", "e", "O", "M"} /\ e[3] \in KeySet(st[e[2]])
+                    [] e[1] = "appendK" -> TRUE
+                    [] e[1] = "popK"    -> st.K # <<>>
+                    [] OTHER -> FALSE
 =============================================================================
